@@ -169,6 +169,8 @@ def _taken_by_removal(ctx: Ctx) -> None:
                         v = n.value
                         if isinstance(v, ast.Call) and last_attr(v) in REMOVERS and _on_alias(v, al):
                             removed = True
+                        elif isinstance(v, ast.Subscript) and isinstance(v.value, ast.Name) and v.value.id in al and _removed_after(m, cfg, ls, n, v.value.id):
+                            removed = True  # peek followed by `del dq[i]` / dq.pop*() in the same critical section
                         else:
                             removed = False
                             why = f"`{txt(n)}` does not remove the entry from the idle deque"
@@ -177,7 +179,7 @@ def _taken_by_removal(ctx: Ctx) -> None:
                     # iteration over a deque: the same deque must be cleared afterwards in the same critical section
                     it = n.iter
                     st = cfg.stmt_of(r)
-                    clears = [c for c in calls(m) if last_attr(c) == "clear" and isinstance(c.func, ast.Attribute) and txt(c.func.value) == txt(it)]
+                    clears = [c for c in calls(m) if last_attr(c) == "clear" and isinstance(c.func, ast.Attribute) and (txt(c.func.value) == txt(it) or txt(c.func.value) == f"self.{IDLE}")]
                     reg = ls.with_region(st, LOCK)
                     ok_clear = False
                     for c in clears:
@@ -196,6 +198,23 @@ def _taken_by_removal(ctx: Ctx) -> None:
                       ok="every transport leaving the idle set was removed from its deque (pop/popleft, or iterate-then-clear) under the lock",
                       bad=f"`{txt(bad[0][0]) if bad else ''}`: {bad[0][1] if bad else ''} -- the worker stays in the idle set while it is handed out / closed, so a second borrower can receive it")
     ctx.require_count("RF-LOCK", n_reads, 4, "transports taken from the idle set")
+
+
+def _removed_after(m: FunctionInfo, cfg, ls, peek_stmt: ast.AST, deque_name: str) -> bool:  # noqa: ANN001
+    """After the peek, does every path leaving the lock region pass a removal from the same deque?"""
+    reg = ls.with_region(peek_stmt, LOCK)
+    if reg is None:
+        return False
+    rem: set[int] = set()
+    for n in walk_scope(m.node):
+        if isinstance(n, ast.Delete) and any(isinstance(t, ast.Subscript) and isinstance(t.value, ast.Name) and t.value.id == deque_name for t in n.targets):
+            rem |= cfg.attempt(n)
+        if isinstance(n, ast.Call) and last_attr(n) in REMOVERS | {"clear"} and isinstance(n.func, ast.Attribute) and isinstance(n.func.value, ast.Name) and n.func.value.id == deque_name:
+            rem |= cfg.attempt(n)
+    if not rem:
+        return False
+    after = cfg.reach(cfg.done(peek_stmt), rem, include_start=False)
+    return not any(cfg.nodes[i].kind == "with-exit" and cfg.nodes[i].stmt is reg and cfg.nodes[i].note == "" for i in after) and cfg.exit not in after
 
 
 # =============================================================================================
@@ -407,7 +426,8 @@ def _borrow(ctx: Ctx) -> None:
     cfg = cfg_of(bo.node)
     ls = lockset(bo, LOCK)
     al = _idle_aliases(bo)
-    pops = [c for c in calls(bo) if last_attr(c) in REMOVERS and _on_alias(c, al)]
+    pops: list[ast.AST] = [c for c in calls(bo) if last_attr(c) in REMOVERS and _on_alias(c, al)]
+    pops += [n for n in walk_scope(bo.node) if isinstance(n, ast.Delete) and any(isinstance(t, ast.Subscript) and isinstance(t.value, ast.Name) and t.value.id in al for t in n.targets)]
     some(pops, "removal of an idle entry in _borrow", bo)
     # returns that hand out an idle worker = returns inside the critical section
     reuse = [n for n in walk_scope(bo.node) if isinstance(n, ast.Return) and n.value is not None and ls.with_region(n, LOCK) is not None]
